@@ -96,7 +96,17 @@ class Universe(object):
         return s
 
     def page(self):
-        return self.rng.choice(self.lrus)
+        l = self.rng.choice(self.lrus)
+        if self.rng.random() < self.profile.get("extend", 0.12):
+            return self.extend(l)
+        return l
+
+    def extend(self, l):
+        """A (mostly new) LRU just below l: its insertion rewrites l's own block."""
+        from impl import stems_of
+        if len(stems_of(l)) >= 7:
+            return l
+        return l + self.rng.choice(self.paths[:4] + self.tails[:1])
 
     def prefix(self):
         from impl import stems_of
@@ -148,6 +158,7 @@ class Driver(object):
         if backend != "file":
             self.weights["Reopen"] = 0
         self.dropped_family = 0
+        self.last_pages = []
 
     def family_ok(self, lrus):
         rules = [self.default] + list(self.ram.values())
@@ -161,6 +172,7 @@ class Driver(object):
     def draw(self, obs):
         """Draw the next request given the latest observations (concrete)."""
         rng, u = self.rng, self.u
+        self.last_pages = list(obs["pages"])
         we = {}
         for lru, wid in obs["we"]:
             we.setdefault(wid, []).append(lru)
@@ -213,13 +225,53 @@ class Driver(object):
                     pairs.append((s, t))
             return {"op": name, "pairs": pairs}
         if name == "IndexBatchCrawl":
+            # adversarial shapes: sources that were crawled before, sources that are targets of
+            # earlier sources of the same batch, targets that are all known, empty target lists
             data, seen = [], set()
-            for _ in range(rng.choice([1, 2, 3])):
-                s = u.page()
+            known = [l for l, _ in self.last_pages] or [u.page()]
+            crawled = [l for l, c in self.last_pages if c] or known
+            if rng.random() < 0.3:
+                # a typical crawl shape: a hub links to an already crawled page X and to pages
+                # discovered around X; X is re-crawled in the same batch
+                x = rng.choice(crawled)
+                hub = rng.choice(known + [u.page()])
+                around = [u.extend(x) if rng.random() < 0.7 else u.page() for _ in range(rng.choice([1, 2]))]
+                first = [x] + around
+                rng.shuffle(around)
+                if rng.random() < 0.3:
+                    rng.shuffle(first)
+                xt = [rng.choice(known + first) for _ in range(rng.choice([0, 1, 2]))]
+                if rng.random() < 0.3:
+                    xt.append(u.page())
+                data = [(hub, first)] if hub != x else []
+                data.append((x, xt))
+                if rng.random() < 0.4:
+                    y = rng.choice(first)
+                    if y not in (hub, x):
+                        data.append((y, [rng.choice(known)]))
+                return {"op": name, "data": data}
+            nsrc = rng.choice([1, 2, 2, 3, 4])
+            pending = []
+            for _ in range(nsrc):
+                r = rng.random()
+                if pending and r < 0.4:
+                    s = pending.pop(0)
+                elif r < 0.65:
+                    s = rng.choice(crawled)
+                else:
+                    s = u.page()
                 if s in seen:
                     continue
                 seen.add(s)
-                tg = [u.page() for _ in range(rng.choice([0, 1, 2, 3]))]
+                tg = []
+                for _ in range(rng.choice([0, 1, 2, 2, 3])):
+                    r = rng.random()
+                    t = rng.choice(known) if r < 0.45 else (rng.choice(crawled) if r < 0.6 else u.page())
+                    if tg and rng.random() < 0.3:
+                        t = u.extend(rng.choice(tg + [s]))      # fresh node hanging off a page of this batch
+                    tg.append(t)
+                    if t not in seen and rng.random() < 0.5:
+                        pending.append(t)
                 if tg and rng.random() < 0.2:
                     tg.append(tg[0])
                 if rng.random() < 0.1:
